@@ -1,6 +1,537 @@
-/- C20 — property theorems.  Stub. -/
+/-
+C20 — property theorems.  Every guard of the catalogue rejects exactly the arguments that violate the
+documented precondition — on both sides of every boundary.
+-/
 import CBV.Model.C20
+import CBV.Lemmas.C20
+import Mathlib.Tactic.Ring
+import Mathlib.Tactic.Linarith
+import Mathlib.Algebra.Order.Field.Rat
 
 namespace CBV.C20
+
+set_option linter.unusedSimpArgs false
+
+/-! ### index guards: the documented range, enforced at both ends -/
+
+/-- `Face.add_edge(corner, …)` is rejected iff the corner is not one of 0…3 (for every integer) -/
+theorem T_C20_face_add_edge (tol : Rat) (c : Int) :
+    (run tol (.faceAddEdge c)).isReject = true ↔ ¬ (0 ≤ c ∧ c ≤ 3) := by
+  simp only [run, checks_isReject, faceCornerBad, List.any_cons, List.any_nil, Bool.or_false,
+    Bool.or_eq_true, decide_eq_true_eq]
+  omega
+
+theorem T_C20_face_project_edge (tol : Rat) (c : Int) :
+    (run tol (.faceProjectEdge c)).isReject = true ↔ ¬ (0 ≤ c ∧ c ≤ 3) := by
+  simp only [run, checks_isReject, faceCornerBad, List.any_cons, List.any_nil, Bool.or_false,
+    Bool.or_eq_true, decide_eq_true_eq]
+  omega
+
+theorem T_C20_op_add_side_edge (tol : Rat) (c : Int) :
+    (run tol (.opAddSideEdge c)).isReject = true ↔ ¬ (0 ≤ c ∧ c ≤ 3) := by
+  simp only [run, checks_isReject, List.any_cons, List.any_nil, Bool.or_false,
+    Bool.or_eq_true, decide_eq_true_eq]
+  omega
+
+theorem T_C20_op_project_corner (tol : Rat) (c : Int) :
+    (run tol (.opProjectCorner c)).isReject = true ↔ ¬ (0 ≤ c ∧ c ≤ 7) := by
+  simp only [run, checks_isReject, List.any_cons, List.any_nil, Bool.or_false,
+    Bool.or_eq_true, decide_eq_true_eq]
+  omega
+
+theorem T_C20_op_chop (tol : Rat) (axis : Int) :
+    ((run tol (.opChop axis)).isReject = true ↔ ¬ (0 ≤ axis ∧ axis ≤ 2)) ∧
+    ((run tol (.opUnchop axis)).isReject = true ↔ ¬ (0 ≤ axis ∧ axis ≤ 2)) := by
+  simp only [run, checks_isReject, List.any_cons, List.any_nil, Bool.or_false,
+    Bool.or_eq_true, Bool.not_eq_true', beq_iff_eq, Bool.or_eq_false_iff, beq_eq_false_iff_ne]
+  omega
+
+
+/-! ### counts: one below, at, one above the documented number -/
+
+/-- `Face(points)`: rejected iff the array is not 4 × 3 -/
+theorem T_C20_face_shape (tol : Rat) (n m : Nat) :
+    (run tol (.faceShape n m)).isReject = true ↔ ¬ (n = 4 ∧ m = 3) := by
+  simp only [run, checks_isReject, List.any_cons, List.any_nil, Bool.or_false, Bool.or_eq_true,
+    Bool.not_eq_true', beq_iff_eq, Bool.and_eq_false_iff, beq_eq_false_iff_ne]
+  omega
+
+theorem T_C20_face_edges (tol : Rat) (k : Nat) :
+    (run tol (.faceEdges k)).isReject = true ↔ ¬ (k = 4) := by
+  simp [run, checks_isReject]
+
+theorem T_C20_point_shape (tol : Rat) (dims : List Nat) :
+    (run tol (.pointShape dims)).isReject = true ↔ ¬ (dims = [3]) := by
+  simp [run, checks_isReject]
+
+/-- `Array(points)`: rejected iff the points are not 3-dimensional or there are fewer than two -/
+theorem T_C20_array_shape (tol : Rat) (n m : Nat) :
+    (run tol (.arrayShape n m)).isReject = true ↔ ¬ (m = 3 ∧ 2 ≤ n) := by
+  simp only [run, checks_isReject, List.any_cons, List.any_nil, Bool.or_false, Bool.or_eq_true,
+    bne_iff_ne, beq_iff_eq, decide_eq_true_eq]
+  omega
+
+theorem T_C20_side_vertices (tol : Rat) (k : Nat) :
+    (run tol (.sideVertices k)).isReject = true ↔ ¬ (k = 8) := by
+  simp [run, checks_isReject]
+
+theorem T_C20_from_series (tol : Rat) (k : Nat) :
+    (run tol (.fromSeries k)).isReject = true ↔ ¬ (2 ≤ k) := by
+  simp [run, checks_isReject]
+
+/-- `Project(labels)`: rejected iff there are not one or two labels -/
+theorem T_C20_project_labels (tol : Rat) (n : Nat) :
+    (run tol (.projectLabels n)).isReject = true ↔ ¬ (1 ≤ n ∧ n ≤ 2) := by
+  simp only [run, checks_isReject, List.any_cons, List.any_nil, Bool.or_false,
+    Bool.not_eq_true', Bool.and_eq_false_iff, decide_eq_false_iff_not]
+  omega
+
+theorem T_C20_cylinder_fill (tol : Rat) (n : Nat) :
+    (run tol (.cylinderFill n)).isReject = true ↔ ¬ (n = 8) := by
+  simp [run, checks_isReject]
+
+/-- `LoftedShape`: rejected iff some sketch has another number of faces than the first -/
+theorem T_C20_lofted_shape (tol : Rat) (n1 n2 : Nat) (mids : List Nat) :
+    (run tol (.loftedShape n1 n2 mids)).isReject = true ↔ ¬ (n1 = n2 ∧ ∀ m ∈ mids, m = n1) := by
+  simp only [run, checks_isReject, List.any_cons, List.any_nil, Bool.or_false, Bool.or_eq_true,
+    bne_iff_ne, List.any_eq_true]
+  constructor
+  · rintro (h | ⟨m, hm, hne⟩) ⟨h1, h2⟩
+    · exact h h1
+    · exact hne (h2 m hm)
+  · intro h
+    by_cases h1 : n1 = n2
+    · right
+      by_contra hc
+      apply h
+      refine ⟨h1, fun m hm => ?_⟩
+      by_contra hne
+      exact hc ⟨m, hm, hne⟩
+    · left; exact h1
+
+/-! ### intervals of rationals -/
+
+/-- the length ratio of a chop must lie in (0, 1] -/
+theorem T_C20_length_ratio (tol r : Rat) :
+    (run tol (.lengthRatio r)).isReject = true ↔ ¬ (0 < r ∧ r ≤ 1) := by
+  simp only [run, checks_isReject, List.any_cons, List.any_nil, Bool.or_false,
+    Bool.not_eq_true', Bool.and_eq_false_iff, decide_eq_false_iff_not]
+  constructor
+  · rintro (h | h) ⟨h1, h2⟩
+    · exact h h1
+    · exact h h2
+  · intro h
+    by_cases h1 : 0 < r
+    · right; intro h2; exact h ⟨h1, h2⟩
+    · left; exact h1
+
+/-- chaining: a length that is not positive is rejected -/
+theorem T_C20_chain (tol : Rat) (kind : Nat) (len : Rat) :
+    (run tol (.chain kind len)).isReject = true ↔ ¬ (0 < len) := by
+  simp only [run, checks_isReject, List.any_cons, List.any_nil, Bool.or_false, Bool.or_eq_true,
+    decide_eq_true_eq]
+  constructor
+  · rintro (h | h) <;> linarith
+  · intro h
+    rcases lt_trichotomy len 0 with h1 | h1 | h1
+    · left; exact h1
+    · right; exact h1
+    · exact absurd h1 h
+
+/-- `ExtrudedRing.contract`: the new inner radius must be positive and below the source's by at least `tol` -/
+theorem T_C20_ring_contract (tol rnew rsrc : Rat) :
+    (run tol (.ringContract rnew rsrc)).isReject = true ↔ ¬ (0 < rnew ∧ rnew + tol ≤ rsrc) := by
+  simp only [run, checks_isReject, List.any_cons, List.any_nil, Bool.or_false, Bool.or_eq_true,
+    decide_eq_true_eq]
+  constructor
+  · rintro (h | h) ⟨h1, h2⟩ <;> linarith
+  · intro h
+    by_cases h1 : rnew ≤ 0
+    · left; exact h1
+    · right
+      by_contra hc
+      apply h
+      constructor <;> linarith
+
+/-- with a positive tolerance an accepted contraction is to a strictly smaller radius, and a radius that is
+    not below the source's (equal included) is rejected -/
+theorem T_C20_ring_contract_strict (tol rnew rsrc : Rat) (htol : 0 < tol) :
+    ((run tol (.ringContract rnew rsrc)).isReject = false → rnew < rsrc) ∧
+    (rsrc ≤ rnew → (run tol (.ringContract rnew rsrc)).isReject = true) := by
+  constructor
+  · intro h
+    have := (T_C20_ring_contract tol rnew rsrc).not.mp (by simp [h])
+    have := not_not.mp this
+    linarith [this.2]
+  · intro h
+    apply (T_C20_ring_contract tol rnew rsrc).mpr
+    intro ⟨_, h2⟩
+    linarith
+
+
+/-! ### symmetric conditions: coplanar / perpendicular within the tolerance, on both sides -/
+
+/-- `Face(..., check_coplanar=True)`: rejected iff the triple product leaves [-tol, tol] on either side -/
+theorem T_C20_face_coplanar (tol : Rat) (p0 p1 p2 p3 : V3) :
+    (run tol (.faceCoplanar p0 p1 p2 p3)).isReject = true ↔
+      ¬ (-tol ≤ triple p0 p1 p2 p3 ∧ triple p0 p1 p2 p3 ≤ tol) := by
+  simp only [run, checks_isReject, List.any_cons, List.any_nil, Bool.or_false, decide_eq_true_eq]
+  exact absR_gt_iff _ _
+
+theorem isZero_iff (v : V3) : isZero v = true ↔ v = V3.zero := by
+  cases v
+  simp [isZero, V3.zero, and_assoc]
+
+/-- `Cylinder` / `SemiCylinder`: rejected iff the axis or the radius vector vanishes or their dot product
+    leaves [-tol, tol] **on either side** -/
+theorem T_C20_cylinder_perp (tol : Rat) (a1 a2 rp : V3) :
+    (run tol (.cylinder a1 a2 rp)).isReject = true ↔
+      ¬ (a2 - a1 ≠ V3.zero ∧ rp - a1 ≠ V3.zero ∧
+          -tol ≤ V3.dot (a2 - a1) (rp - a1) ∧ V3.dot (a2 - a1) (rp - a1) ≤ tol) := by
+  simp only [run, checks_isReject, List.any_cons, List.any_nil, Bool.or_false, Bool.or_eq_true,
+    decide_eq_true_eq, isZero_iff, absR_gt_iff]
+  tauto
+
+theorem T_C20_frustum_perp (tol : Rat) (a1 a2 rp : V3) :
+    (run tol (.frustum a1 a2 rp)).isReject = true ↔
+      ¬ (a2 - a1 ≠ V3.zero ∧ rp - a1 ≠ V3.zero ∧
+          -tol ≤ V3.dot (a2 - a1) (rp - a1) ∧ V3.dot (a2 - a1) (rp - a1) ≤ tol) := by
+  simp only [run, checks_isReject, List.any_cons, List.any_nil, Bool.or_false, Bool.or_eq_true,
+    decide_eq_true_eq, isZero_iff, absR_gt_iff]
+  tauto
+
+/-- the guard as it was before the repair (`diff > TOL` without `abs`) -/
+def cylinderOld (tol : Rat) (a1 a2 rp : V3) : Out :=
+  checks [(decide (V3.dot (a2 - a1) (rp - a1) > tol), "CylinderCreationError")]
+
+/-- … does *not* enforce the symmetric condition: a radius point leaning by −1/2 is accepted -/
+theorem T_C20_onesided_counterexample :
+    ¬ ∀ a1 a2 rp : V3, (cylinderOld (1 / 10000000) a1 a2 rp).isReject = true ↔
+      ¬ (-(1 / 10000000) ≤ V3.dot (a2 - a1) (rp - a1) ∧ V3.dot (a2 - a1) (rp - a1) ≤ 1 / 10000000) := by
+  intro h
+  have := (h ⟨0, 0, 0⟩ ⟨0, 0, 1⟩ ⟨1, 0, -1 / 2⟩).mpr (by decide +kernel)
+  revert this
+  decide +kernel
+
+/-! ### the ring: radii and perpendicularity.  The model compares squares; the code compares norms. -/
+
+/-- the coded comparison `outer_radius - inner_radius < TOL` of two norms is the squared comparison of the model,
+    for every non-negative root `s` of `|v|²` -/
+theorem T_C20_radii_squared (tol rin s : Rat) (v : V3) (hs : 0 ≤ s) (hss : s * s = V3.norm2 v)
+    (hr : 0 ≤ rin) (htol : 0 ≤ tol) :
+    (s - rin < tol ↔ V3.norm2 v < (rin + tol) * (rin + tol)) ∧
+    (rin + tol ≤ s ↔ (rin + tol) * (rin + tol) ≤ V3.norm2 v) := by
+  rw [← hss]
+  constructor
+  · rw [← lt_iff_sq_lt hs (by linarith)]
+    constructor <;> intro h <;> linarith
+  · exact le_iff_sq_le (by linarith) hs
+
+example : (0 : Rat) ≤ 5 ∧ (5 : Rat) * 5 = V3.norm2 ⟨3, 4, 0⟩ ∧ (0 : Rat) ≤ 1 / 2 ∧ (0 : Rat) ≤ 1 / 10000000 := by
+  decide +kernel
+
+/-- the coded comparison `abs(dot(normal / |normal|, v)) > TOL` and the documented two-sided condition, in squared
+    form, for every positive root `s` of `|n|²` -/
+theorem T_C20_lean_squared (tol s : Rat) (n v : V3) (hs : 0 < s) (hss : s * s = V3.norm2 n) (htol : 0 ≤ tol) :
+    (absR (V3.dot n v / s) > tol ↔ V3.dot n v * V3.dot n v > tol * tol * V3.norm2 n) ∧
+    ((-tol ≤ V3.dot n v / s ∧ V3.dot n v / s ≤ tol) ↔ V3.dot n v * V3.dot n v ≤ tol * tol * V3.norm2 n) := by
+  have key : absR (V3.dot n v / s) > tol ↔ V3.dot n v * V3.dot n v > tol * tol * V3.norm2 n := by
+    rw [← hss]
+    have hne : s ≠ 0 := ne_of_gt hs
+    have e : V3.dot n v / s * s = V3.dot n v := div_mul_cancel₀ _ hne
+    have h1 : V3.dot n v * V3.dot n v = (absR (V3.dot n v / s) * s) * (absR (V3.dot n v / s) * s) := by
+      have : (absR (V3.dot n v / s) * s) * (absR (V3.dot n v / s) * s)
+          = (absR (V3.dot n v / s) * absR (V3.dot n v / s)) * (s * s) := by ring
+      rw [this, absR_mul_self]
+      have : V3.dot n v / s * (V3.dot n v / s) * (s * s) = (V3.dot n v / s * s) * (V3.dot n v / s * s) := by ring
+      rw [this, e]
+    rw [h1]
+    have ha := absR_nonneg (V3.dot n v / s)
+    have : tol * tol * (s * s) = (tol * s) * (tol * s) := by ring
+    rw [this, gt_iff_lt, gt_iff_lt, ← lt_iff_sq_lt (mul_nonneg htol hs.le) (mul_nonneg ha hs.le)]
+    constructor
+    · intro h; exact mul_lt_mul_of_pos_right h hs
+    · intro h; exact lt_of_mul_lt_mul_right h hs.le
+  refine ⟨key, ?_⟩
+  have := (absR_gt_iff (V3.dot n v / s) tol)
+  constructor
+  · intro h
+    by_contra hc
+    exact (this.mp (key.mpr (not_le.mp hc))) h
+  · intro h
+    by_contra hc
+    have := key.mp (this.mpr hc)
+    linarith
+
+example : (0 : Rat) < 7 ∧ (7 : Rat) * 7 = V3.norm2 ⟨2, 3, 6⟩ := by decide +kernel
+
+/-- `Annulus` / `ExtrudedRing`: rejected iff a vector vanishes, there are fewer than two segments, the inner radius
+    is negative or not below the outer one by `tol`, or the radius vector leans out of the plane on either side -/
+theorem T_C20_annulus (tol : Rat) (c p n : V3) (rin : Rat) (nseg : Int) :
+    (run tol (.annulus c p n rin nseg)).isReject = true ↔
+      ¬ (n ≠ V3.zero ∧ p - c ≠ V3.zero ∧ 2 ≤ nseg ∧ 0 ≤ rin ∧
+          (rin + tol) * (rin + tol) ≤ V3.norm2 (p - c) ∧
+          V3.dot n (p - c) * V3.dot n (p - c) ≤ tol * tol * V3.norm2 n) := by
+  simp only [run, checks_isReject, List.any_cons, List.any_nil, Bool.or_false, Bool.or_eq_true,
+    decide_eq_true_eq, isZero_iff, beq_iff_eq]
+  constructor
+  · rintro (h | h | h | h | h | h | h) ⟨h1, h2, h3, h4, h5, h6⟩
+    · linarith
+    · omega
+    · rcases h with h | h
+      · exact h1 h
+      · exact h2 h
+    · omega
+    · omega
+    · linarith
+    · linarith
+  · intro h
+    by_contra hc
+    simp only [not_or, not_lt] at hc
+    obtain ⟨c1, c2, c3, c4, c5, c6, c7⟩ := hc
+    apply h
+    refine ⟨c3.1, c3.2, by omega, c1, c6, c7⟩
+
+/-- consequences in the documented, unsquared form: an accepted ring has its inner radius strictly below the
+    outer one, and an inner radius that is not below the outer one (equal included) is rejected -/
+theorem T_C20_annulus_radii (tol : Rat) (c p n : V3) (rin : Rat) (nseg : Int) (s : Rat)
+    (htol : 0 < tol) (hs : 0 ≤ s) (hss : s * s = V3.norm2 (p - c)) :
+    ((run tol (.annulus c p n rin nseg)).isReject = false → 0 ≤ rin ∧ rin < s) ∧
+    (s ≤ rin → (run tol (.annulus c p n rin nseg)).isReject = true) := by
+  constructor
+  · intro h
+    have h' := not_not.mp ((T_C20_annulus tol c p n rin nseg).not.mp (by simp [h]))
+    obtain ⟨_, _, _, h4, h5, _⟩ := h'
+    have := ((T_C20_radii_squared tol rin s (p - c) hs hss h4 htol.le).2).mpr h5
+    exact ⟨h4, by linarith⟩
+  · intro h
+    apply (T_C20_annulus tol c p n rin nseg).mpr
+    rintro ⟨_, _, _, h4, h5, _⟩
+    have := ((T_C20_radii_squared tol rin s (p - c) hs hss h4 htol.le).2).mpr h5
+    linarith
+
+/-! ### lists of corners, side names -/
+
+theorem removeEdgesRun_isReject (cs : List Int) :
+    (removeEdgesRun cs).isReject = true ↔ ∃ c ∈ cs, ¬ (0 ≤ c ∧ c ≤ 3) := by
+  induction cs with
+  | nil => simp [removeEdgesRun, Out.isReject]
+  | cons c cs ih =>
+      unfold removeEdgesRun
+      by_cases h : faceCornerBad c = true
+      · rw [if_pos h]
+        simp only [Out.isReject, List.mem_cons, exists_eq_or_imp, true_iff]
+        left
+        simp only [faceCornerBad, Bool.or_eq_true, decide_eq_true_eq] at h
+        omega
+      · rw [if_neg h]
+        simp only [List.mem_cons, exists_eq_or_imp, ih]
+        simp only [faceCornerBad, Bool.or_eq_true, decide_eq_true_eq] at h
+        constructor
+        · intro h'; right; exact h'
+        · rintro (h' | h')
+          · exact absurd (by omega) h'
+          · exact h'
+
+/-- `Face.remove_edges(corners)`: rejected iff some corner is not one of 0…3 -/
+theorem T_C20_face_remove_edges (tol : Rat) (cs : List Int) :
+    (run tol (.faceRemoveEdges cs)).isReject = true ↔ ¬ (∀ c ∈ cs, 0 ≤ c ∧ c ≤ 3) := by
+  simp only [run, removeEdgesRun_isReject]
+  constructor
+  · rintro ⟨c, hc, hn⟩ h; exact hn (h c hc)
+  · intro h
+    by_contra hc
+    apply h
+    intro c hmem
+    by_contra hn
+    exact hc ⟨c, hmem, hn⟩
+
+/-- `set_patch` / `project_side`: with the generated `SIDES_MAP`, exactly the six side names of the hexahedron
+    are accepted (`decide` on the table regenerated from the source) -/
+theorem T_C20_sides_table :
+    ∀ s ∈ sideNames, (s == "bottom" || s == "top" || CBV.Gen.sidesMap.contains s) = true := by decide
+
+theorem T_C20_op_side (tol : Rat) (side : String) :
+    (run tol (.opSide side)).isReject = true ↔ ¬ (side ∈ sideNames) := by
+  simp only [run, checks_isReject, List.any_cons, List.any_nil, Bool.or_false, Bool.not_eq_true',
+    Bool.or_eq_false_iff, beq_eq_false_iff_ne, CBV.Gen.sidesMap, sideNames, List.contains_eq_mem,
+    List.mem_cons, List.not_mem_nil, or_false, decide_eq_false_iff_not]
+  tauto
+
+/-! ### pairs of corners: exactly the 12 edges of blockMesh's hexahedron (tables regenerated from the source) -/
+
+/-- on the generated tables: `Frame` holds a beam, `edge_map` holds a location and `valid_pairs` holds the pair
+    exactly for the corner pairs that differ in one local coordinate -/
+theorem T_C20_pair_tables :
+    ∀ a ∈ List.range 8, ∀ b ∈ List.range 8,
+      frameHas a b = isEdge a b ∧ edgeMapHas a b = isEdge a b ∧ validPair (a : Int) (b : Int) = isEdge a b := by
+  decide
+
+theorem validPair_range (c1 c2 : Int) (h : validPair c1 c2 = true) : 0 ≤ c1 ∧ c1 ≤ 7 ∧ 0 ≤ c2 ∧ c2 ≤ 7 := by
+  simp only [validPair, CBV.Gen.edgePairs, List.any_cons, List.any_nil, Bool.or_false, Bool.or_eq_true,
+    Bool.and_eq_true, beq_iff_eq] at h
+  omega
+
+theorem toNat_mem_range8 (c : Int) (h0 : 0 ≤ c) (h7 : c ≤ 7) : c.toNat ∈ List.range 8 ∧ (c.toNat : Int) = c := by
+  constructor
+  · simp only [List.mem_range]; omega
+  · omega
+
+/-- `Operation.project_edge`: rejected iff an index is not a corner (0…7) or the corners are not joined by an edge -/
+theorem T_C20_op_project_edge (tol : Rat) (c1 c2 : Int) :
+    (run tol (.opProjectEdge c1 c2)).isReject = true ↔
+      ¬ (0 ≤ c1 ∧ c1 ≤ 7 ∧ 0 ≤ c2 ∧ c2 ≤ 7 ∧ isEdge c1.toNat c2.toNat = true) := by
+  simp only [run, checks_isReject, List.any_cons, List.any_nil, Bool.or_false, Bool.or_eq_true,
+    Bool.not_eq_true', Bool.and_eq_false_iff, decide_eq_false_iff_not]
+  by_cases hr : 0 ≤ c1 ∧ c1 ≤ 7 ∧ 0 ≤ c2 ∧ c2 ≤ 7
+  · obtain ⟨h1, h2, h3, h4⟩ := hr
+    have ha := toNat_mem_range8 c1 h1 h2
+    have hb := toNat_mem_range8 c2 h3 h4
+    obtain ⟨t1, t2, _⟩ := T_C20_pair_tables _ ha.1 _ hb.1
+    rw [t1, t2]
+    constructor
+    · rintro (h | h | h) ⟨_, _, _, _, he⟩
+      · omega
+      · rw [he] at h; exact Bool.noConfusion h
+      · rw [he] at h; exact Bool.noConfusion h
+    · intro h
+      right; left
+      cases he : isEdge c1.toNat c2.toNat
+      · rfl
+      · exact absurd ⟨h1, h2, h3, h4, he⟩ h
+  · constructor
+    · intro _ h; exact hr ⟨h.1, h.2.1, h.2.2.1, h.2.2.2.1⟩
+    · intro _; left; omega
+
+/-- `Block.add_edge` -/
+theorem T_C20_block_add_edge (tol : Rat) (c1 c2 : Int) :
+    (run tol (.blockAddEdge c1 c2)).isReject = true ↔
+      ¬ (0 ≤ c1 ∧ c1 ≤ 7 ∧ 0 ≤ c2 ∧ c2 ≤ 7 ∧ isEdge c1.toNat c2.toNat = true) := by
+  simp only [run, checks_isReject, List.any_cons, List.any_nil, Bool.or_false, Bool.or_eq_true,
+    Bool.not_eq_true', Bool.and_eq_false_iff, decide_eq_false_iff_not]
+  by_cases hr : 0 ≤ c1 ∧ c1 ≤ 7 ∧ 0 ≤ c2 ∧ c2 ≤ 7
+  · obtain ⟨h1, h2, h3, h4⟩ := hr
+    have ha := toNat_mem_range8 c1 h1 h2
+    have hb := toNat_mem_range8 c2 h3 h4
+    obtain ⟨t1, _, _⟩ := T_C20_pair_tables _ ha.1 _ hb.1
+    rw [t1]
+    constructor
+    · rintro (h | h) ⟨_, _, _, _, he⟩
+      · omega
+      · rw [he] at h; exact Bool.noConfusion h
+    · intro h
+      right
+      cases he : isEdge c1.toNat c2.toNat
+      · rfl
+      · exact absurd ⟨h1, h2, h3, h4, he⟩ h
+  · constructor
+    · intro _ h; exact hr ⟨h.1, h.2.1, h.2.2.1, h.2.2.2.1⟩
+    · intro _; left; omega
+
+/-- `Frame.add_beam` -/
+theorem T_C20_frame_add_beam (tol : Rat) (c1 c2 : Int) :
+    (run tol (.frameAddBeam c1 c2)).isReject = true ↔
+      ¬ (0 ≤ c1 ∧ c1 ≤ 7 ∧ 0 ≤ c2 ∧ c2 ≤ 7 ∧ isEdge c1.toNat c2.toNat = true) := by
+  simp only [run, checks_isReject, List.any_cons, List.any_nil, Bool.or_false, Bool.not_eq_true']
+  by_cases hr : 0 ≤ c1 ∧ c1 ≤ 7 ∧ 0 ≤ c2 ∧ c2 ≤ 7
+  · obtain ⟨h1, h2, h3, h4⟩ := hr
+    have ha := toNat_mem_range8 c1 h1 h2
+    have hb := toNat_mem_range8 c2 h3 h4
+    obtain ⟨_, _, t3⟩ := T_C20_pair_tables _ ha.1 _ hb.1
+    rw [ha.2, hb.2] at t3
+    rw [t3]
+    constructor
+    · intro h ⟨_, _, _, _, he⟩
+      rw [he] at h; exact Bool.noConfusion h
+    · intro h
+      cases he : isEdge c1.toNat c2.toNat
+      · rfl
+      · exact absurd ⟨h1, h2, h3, h4, he⟩ h
+  · constructor
+    · intro _ h; exact hr ⟨h.1, h.2.1, h.2.2.1, h.2.2.2.1⟩
+    · intro _
+      cases hv : validPair c1 c2
+      · rfl
+      · exact absurd (validPair_range c1 c2 hv) hr
+
+/-! ### slices of a stack -/
+
+/-- `Stack.get_slice(axis, index)` on a non-empty stack: rejected iff the axis is not 0, 1, 2 or the index is not
+    one of 0 … (number of slices along that axis − 1) -/
+theorem T_C20_stack_slice (tol : Rat) (axis idx : Int) (n0 n1 n2 : Nat) (h1 : 0 < n1) (h2 : 0 < n2) :
+    (run tol (.stackSlice axis idx n0 n1 n2)).isReject = true ↔
+      ¬ (0 ≤ axis ∧ axis ≤ 2 ∧ 0 ≤ idx ∧
+          idx < (if axis = 0 then (n0 : Int) else if axis = 1 then (n1 : Int) else (n2 : Int))) := by
+  simp only [run, checks_isReject, List.any_cons, List.any_nil, Bool.or_false, Bool.or_eq_true,
+    Bool.not_eq_true', Bool.or_eq_false_iff, beq_eq_false_iff_ne, Bool.and_eq_true, beq_iff_eq,
+    decide_eq_true_eq]
+  split_ifs with ha hb <;> omega
+
+example : (0 : Nat) < 3 ∧ (0 : Nat) < 4 := by decide
+
+/-! ### labels of a projected edge -/
+
+theorem mergeLabels_mem (h new : List Nat) (x : Nat) : x ∈ mergeLabels h new ↔ x ∈ h ∨ x ∈ new := by
+  unfold mergeLabels
+  induction new generalizing h with
+  | nil => simp
+  | cons l ls ih =>
+      simp only [List.foldl_cons]
+      rw [ih]
+      by_cases hl : h.contains l = true
+      · rw [if_pos hl]
+        have : l ∈ h := by simpa using hl
+        simp only [List.mem_cons]
+        constructor
+        · rintro (h1 | h1)
+          · exact Or.inl h1
+          · exact Or.inr (Or.inr h1)
+        · rintro (h1 | h1 | h1)
+          · exact Or.inl h1
+          · subst h1; exact Or.inl this
+          · exact Or.inr h1
+      · rw [if_neg hl]
+        simp only [List.mem_append, List.mem_cons, List.not_mem_nil, or_false]
+        tauto
+
+theorem mergeLabels_nodup (h new : List Nat) (hn : h.Nodup) : (mergeLabels h new).Nodup := by
+  unfold mergeLabels
+  induction new generalizing h with
+  | nil => simpa
+  | cons l ls ih =>
+      simp only [List.foldl_cons]
+      apply ih
+      by_cases hl : h.contains l = true
+      · rw [if_pos hl]; exact hn
+      · rw [if_neg hl]
+        have : l ∉ h := by simpa using hl
+        rw [List.nodup_append]
+        refine ⟨hn, by simp, ?_⟩
+        intro a ha b hb
+        simp only [List.mem_cons, List.not_mem_nil, or_false] at hb
+        subst hb
+        intro hab; subst hab; exact this ha
+
+theorem mergeLabels_length (h new : List Nat) : h.length ≤ (mergeLabels h new).length := by
+  unfold mergeLabels
+  induction new generalizing h with
+  | nil => simp
+  | cons l ls ih =>
+      simp only [List.foldl_cons]
+      refine le_trans ?_ (ih _)
+      split <;> simp
+
+/-- `Project.add_label`: the merged label list has no repetitions and holds exactly the labels of both lists
+    (so its length is the number of distinct surfaces); the call is rejected iff that number exceeds 2 -/
+theorem T_C20_project_add_label (tol : Rat) (h new : List Nat) (hh : 0 < h.length) :
+    ((run tol (.projectAddLabel h new)).isReject = true ↔ ¬ ((mergeLabels h new).length ≤ 2)) ∧
+    (∀ x, x ∈ mergeLabels h new ↔ x ∈ h ∨ x ∈ new) ∧ (h.Nodup → (mergeLabels h new).Nodup) := by
+  refine ⟨?_, mergeLabels_mem h new, mergeLabels_nodup h new⟩
+  have := mergeLabels_length h new
+  simp only [run, checks_isReject, List.any_cons, List.any_nil, Bool.or_false,
+    Bool.not_eq_true', Bool.and_eq_false_iff, decide_eq_false_iff_not]
+  omega
+
+example : 0 < ([0, 1] : List Nat).length ∧ ([0, 1] : List Nat).Nodup := by decide
 
 end CBV.C20
